@@ -319,6 +319,9 @@ Proof.
     replace bs with (bs ++ []) at 1 by apply app_nil_r. rewrite slice_to_app by exact H0. reflexivity.
   - (* string *) unfold bytes_pack. rewrite <- app_assoc. rewrite take_prefixed_roundtrip by assumption.
     cbn [bind]. match goal with H : utf8_ok _ = true |- _ => rewrite H end. reflexivity.
+  - (* PathBuf under string, outside the known class *) unfold bytes_pack. rewrite <- app_assoc.
+    rewrite take_prefixed_roundtrip by assumption.
+    cbn [bind]. match goal with H : utf8_ok _ = true |- _ => rewrite H end. reflexivity.
 Qed.
 
 (* the bytes are the standard encoding *)
@@ -342,6 +345,7 @@ Proof.
   - unfold bytes_pack, ref_len_delimited. rewrite v64_pack_ref by (rewrite H0; reflexivity). reflexivity.
   - unfold bytes_pack, ref_len_delimited. rewrite v64_pack_ref by (rewrite H0; reflexivity). reflexivity.
   - unfold bytes_pack, ref_len_delimited. rewrite v64_pack_ref by (rewrite H0; reflexivity). reflexivity.
+  - unfold bytes_pack, ref_len_delimited. rewrite v64_pack_ref by assumption. reflexivity.
   - unfold bytes_pack, ref_len_delimited. rewrite v64_pack_ref by assumption. reflexivity.
 Qed.
 
@@ -431,6 +435,11 @@ Proof.
     subst buf. apply bytes_ok_app in Hb. destruct Hb as [_ Hb]. apply bytes_ok_app in Hb. destruct Hb as [Hh _].
     apply andb_true_iff. split; [apply bytes_okb_iff; exact Hh|]. apply N.eqb_eq. lia.
   - (* string *) destruct (take_prefixed_total buf Hb) as [v pre h t Hbuf Hl Hp Hsz Hv| |]; cbn [bind]; try apply ScErr.
+    destruct (utf8_ok h) eqn:E; [|apply ScErr].
+    apply ScOk with (pre := pre ++ h); [rewrite <- app_assoc; assumption|]. cbn [sval_ok].
+    subst buf. apply bytes_ok_app in Hb. destruct Hb as [_ Hb]. apply bytes_ok_app in Hb. destruct Hb as [Hh _].
+    rewrite E. rewrite andb_true_r. apply andb_true_iff. split; [apply bytes_okb_iff; exact Hh|]. apply N.ltb_lt. lia.
+  - (* PathBuf under string *) destruct (take_prefixed_total buf Hb) as [v pre h t Hbuf Hl Hp Hsz Hv| |]; cbn [bind]; try apply ScErr.
     destruct (utf8_ok h) eqn:E; [|apply ScErr].
     apply ScOk with (pre := pre ++ h); [rewrite <- app_assoc; assumption|]. cbn [sval_ok].
     subst buf. apply bytes_ok_app in Hb. destruct Hb as [_ Hb]. apply bytes_ok_app in Hb. destruct Hb as [Hh _].
